@@ -8,7 +8,7 @@ What the rewritten record decodes to is what the original record decodes to, wit
 plan's glyph map: the outline of a kept glyph is preserved by construction, not only on the sampled fonts.
 (Proofs: Lemmas/SubsetOutline.lean … SubsetOutline7.lean.)
 -/
-import FontVerif.Lemmas.SubsetOutline8
+import FontVerif.Lemmas.SubsetOutline9
 set_option linter.unusedVariables false
 namespace FontVerif.C17Outline
 open FontVerif FontVerif.Subset FontVerif.SubsetOutline
@@ -87,6 +87,19 @@ theorem simple_glyph_emptied_only_if_undecodable (flags : Nat) (gmap : Nat → O
     ∃ v, Glyf.readSimple d = some v ∧ v.points = [] :=
   simple_emptied_undecodable flags gmap d hs hnc h
 
+/-- **composite_glyph_not_emptied_when_components_mapped.**  The other direction for composites (klippa after fix
+0b24b65): if read-fonts reads the component list completely (`complete`: the last component it yields has no
+MORE_COMPONENTS, i.e. no record was cut off) and every component glyph has an image under the glyph map — which the
+closure theorems of Props/C17 guarantee whenever no limit fired — then `subset_glyph` writes the glyph NON-empty, for
+every flag combination, whatever follows the last component (instructions, missing instructions, padding).  Together
+with `subset_composite_glyph_decodes_equal`: such a glyph keeps its component list up to the renaming. -/
+theorem composite_glyph_not_emptied_when_components_mapped (flags : Nat) (gmap : Nat → Option Nat) (d : Bytes)
+    (hlen : 10 ≤ d.length) (hs : ¬ u16At d 0 < 32768)
+    (hc : complete (Glyf.readComponents ((d.drop 10).length + 1) (d.drop 10)))
+    (hm : ∀ c ∈ Glyf.readComponents ((d.drop 10).length + 1) (d.drop 10), (gmap c.glyph).isSome) :
+    ∃ out, subsetGlyphBytes flags gmap d = .bytes out ∧ out ≠ [] :=
+  composite_not_emptied flags gmap d hlen hs hc hm
+
 /-! ## non-vacuity -/
 
 /-- a 1-contour glyph with 3 points (flag 0x37 repeated twice: short positive x and y deltas), one instruction byte
@@ -116,6 +129,15 @@ example : (decodeGlyph exComposite).bind (renameDecoded 0 exMap) =
 
 example : decodeGlyph exComposite = some (.composite 0 0 9 9
     [⟨0x0222, 5, .offset 1 (-1), ⟨16384, 0, 0, 16384⟩⟩, ⟨0x010B, 7, .offset 100 (-2), ⟨8192, 0, 0, 8192⟩⟩]) := by decide
+
+/-- the hypotheses of `composite_glyph_not_emptied_when_components_mapped` hold for `exComposite` / `exMap`, also when
+the record is cut right after its last component although that component says WE_HAVE_INSTRUCTIONS -/
+example : (Glyf.readComponents 23 (exComposite.drop 10)).getLast?.map (fun c => Glyf.hasBit c.flags Glyf.MORE_COMPONENTS) =
+    some false := by decide
+
+example : (Glyf.readComponents 23 (exComposite.drop 10)).all (fun c => (exMap c.glyph).isSome) = true := by decide
+
+example : subsetGlyphBytes 0 exMap (exComposite.take 26) = .bytes ((exComposite.take 26).set 13 2 |>.set 19 3) := by decide
 
 /-- the hypothesis of the `read_points_fast` clause is satisfiable (3 points, 2 flag bytes) -/
 example : Glyf.resolveCoordsLen [0x3F, 2, 1, 2, 3, 4, 5, 6, 0, 0] 0 3 0 0 = some (2, 3, 3) := by decide
